@@ -39,12 +39,20 @@ def run(ctx):
     stats = {"accepted": 0, "invalid": 0, "semantic": 0, "crash": 0}
     ncorr = 0
     distinct = set()
-    for p, k, n, a, m in zip(pats, kinds, nfa, ast, model):
+    for idx, (p, k, n, a, m) in enumerate(zip(pats, kinds, nfa, ast, model)):
         on, oa, om = outcome_of(n), outcome_of(a), outcome_of(m)
         if on[0] in ("CRASH", "PANIC", "NILNIL") or oa[0] in ("CRASH", "PANIC", "NILNIL"):
             stats["crash"] += 1     # C14's subject; the pattern cannot be decided here
             ctx.add_broken("correspondence: a pattern crashed an entry point (see C14): %r" % p, "nfa=%s ast=%s" % (n[:200], a[:200]))
             continue
+        if (on != om or oa != om) and ncorr < 20:
+            # is it this pattern, or what was parsed before it? the same pattern alone in a fresh process
+            sn = outcome_of(ctx.run_impl("renfaonly", pattern_lines([p]), isolate=True)[0])
+            sa = outcome_of(ctx.run_impl("reastonly", pattern_lines([p]), isolate=True)[0])
+            if (sn == om and on != om) or (sa == om and oa != om):
+                ctx.add_violation("the outcome for a pattern depends on the patterns parsed before it in the same process: alone it is %s, after them %s" % (om[0], (on if on != om else oa)[:2]),
+                                  {"pattern": p, "pattern_hex": hx(p.encode()), "alone": [sn, sa], "in_sequence": [on, oa], "model_of_code": om,
+                                   "preceding_patterns_in_the_same_process": pats[idx % 14:idx:14][-6:]})
         if on != om or oa != om:
             ncorr += 1
             if ncorr <= 3:
